@@ -85,6 +85,8 @@ class Run:
     # ---------------------------------------------------------------- harness
     def build_harness(self, race=False):
         """Builds the harness against /repo's current working tree with the verif hooks on."""
+        if os.environ.get("VERIF_RACE_ALL"):
+            race = True  # exploration aid: every driver in the race build (a report makes the driver exit 66)
         out = self.path("vh-race" if race else "vh")
         if os.path.exists(out):
             return out
@@ -146,6 +148,23 @@ class Run:
                            detail={"stderr": (stderr or "")[-4000:]})
             raise SutCrashed(what)
         raise Infra("%s failed:\n%s" % (what, (stderr or "")[-3000:]))
+
+    def handler_seq_done(self, p, so, se, out, name):
+        """Outcome of a handler-seq driver. Exit status 7 = a handler call did not return within 60 s:
+        that is behaviour of the real code (reported as Hang), not trouble of the tooling."""
+        if p.returncode == 7:
+            lines = [l for l in open(out).read().splitlines() if l.endswith("}")]
+            last = json.loads(lines[-1]) if lines else {}
+            prev = [json.loads(l) for l in lines[-4:-1]]
+            self.candidate("Hang", "a call of the %s handler did not return within 60 s (%s): %s; calls before it: %s" % (
+                last.get("kind"), name, json.dumps(last.get("x")), json.dumps([e.get("x") for e in prev if e.get("ev") == "op"])[:600]),
+                sig={"mkind": "Hang", "handler": last.get("kind"), "opcode": (last.get("x") or {}).get("opcode")}, detail={"last": last, "before": prev})
+            with open(out, "w") as f:
+                f.write("\n".join(lines[:-1]) + "\n")
+            return True
+        if p.returncode != 0:
+            self.driver_failed("handler-seq %s failed" % (name), se)
+        return False
 
     def _next(self):
         with self._lock:
